@@ -1,0 +1,119 @@
+// Copyright 2019 The Scriggo Authors. All rights reserved.
+// Use of this source code is governed by a BSD-style
+// license that can be found in the LICENSE file.
+
+//go:build verif
+
+// Contracts for the deductive verifier in /verif (govc). This file is compiled
+// only with the "verif" build tag. The //@ comment blocks are the contracts;
+// the Go functions are executable specification functions used by them.
+
+package scriggo
+
+import (
+	"io/fs"
+)
+
+// ---- specification helpers (interpreted by govc) ----
+
+func old[T any](x T) T   { return x }
+func entry[T any](x T) T { return x }
+func imp(a, b bool) bool { return !a || b }
+func forall(lo, hi int, p func(int) bool) bool {
+	for k := lo; k < hi; k++ {
+		if !p(k) {
+			return false
+		}
+	}
+	return true
+}
+func exists(lo, hi int, p func(int) bool) bool {
+	for k := lo; k < hi; k++ {
+		if p(k) {
+			return true
+		}
+	}
+	return false
+}
+func rangeIndex(n int) int { return 0 }
+
+// ---------------------------------------------------------------------------
+// files.go (C23): Files is a well-behaved io/fs file system.
+// ---------------------------------------------------------------------------
+
+// Representation invariant of an open file: closed (offset -1) or 0 <= offset <= len(data).
+func fileOK(f *filesFile) bool { return f.offset == -1 || 0 <= f.offset && f.offset <= len(f.data) }
+
+func hasFile(fsys Files, name string) bool { _, ok := fsys[name]; return ok }
+
+// io.Reader contract: 0 <= n <= len(p); the bytes read are the next n bytes of
+// the file; the offset advances by n; io.EOF exactly at the end; an error
+// (fs.ErrInvalid) after Close; a zero-length p at offset < len is (0, nil).
+//@ func (*filesFile).Read
+//@   props C23
+//@   requires fileOK(f)
+//@   ensures fileOK(f)
+//@   ensures 0 <= result && result <= len(p)
+//@   ensures old(f.offset) >= 0 ==> f.offset == old(f.offset) + result
+//@   ensures old(f.offset) >= 0 && old(f.offset) < len(f.data) ==> result1 == nil && result == min(len(p), len(f.data)-old(f.offset))
+//@   ensures old(f.offset) == len(f.data) ==> result == 0 && result1 == io.EOF
+//@   ensures old(f.offset) < 0 ==> result == 0 && result1 != nil && f.offset == old(f.offset)
+//@   ensures forall(0, result, func(k int) bool { return p[k] == old(f.data[f.offset+k]) })
+//@   ensures len(f.data) == old(len(f.data))
+
+//@ func (*filesFile).Close
+//@   props C23
+//@   ensures result == nil && f.offset == -1 && fileOK(f)
+
+//@ func (*filesFile).Stat
+//@   props C23
+//@   ensures result1 == nil && result != nil
+
+//@ func (*filesFileInfo).Size
+//@   props C23
+//@   ensures result == int64(len(i.data))
+
+//@ func (*filesFileInfo).Mode
+//@   props C23
+//@   ensures result == i.mode
+
+//@ func (*filesFileInfo).IsDir
+//@   props C23
+//@   ensures result == (i.mode&fs.ModeDir != 0)
+
+//@ func (*filesFileInfo).Sys
+//@   props C23
+//@   ensures result == nil
+
+//@ func (*filesDirEntry).Type
+//@   props C23
+
+//@ func (*filesDirEntry).Info
+//@   props C23
+//@   ensures result1 == nil && result != nil
+
+// Open: an invalid name never opens; a present file opens as a file positioned
+// at 0; "." opens as a directory; whatever is returned without error is non-nil.
+//@ func Files.Open
+//@   props C23
+//@   ensures !fs.ValidPath(name) ==> result == nil && result1 != nil
+//@   ensures fs.ValidPath(name) && name == "." ==> result1 == nil && result != nil
+//@   ensures fs.ValidPath(name) && name != "." && hasFile(fsys, name) ==> result1 == nil && result != nil
+//@   ensures result1 == nil ==> result != nil
+//@   ensures result1 != nil ==> result == nil
+
+// ReadDir paging: with n > 0 at most n entries, at least one unless io.EOF,
+// and the cursor advances by the number of entries returned; with n <= 0 no error.
+//@ func (*filesDir).ReadDir
+//@   props C23
+//@   requires d.n >= 0
+//@   ensures d.n >= old(d.n)
+//@   ensures n > 0 && result1 == nil ==> 0 < len(result)
+//@   ensures n > 0 && result1 == nil ==> len(result) <= n
+//@   ensures n > 0 && result1 == nil ==> d.n == old(d.n) + len(result)
+//@   ensures n > 0 && result1 != nil ==> result1 == io.EOF && len(result) == 0 && d.n == old(d.n)
+//@   ensures n <= 0 ==> result1 == nil && d.n == old(d.n)
+//@   loop 1
+//@     invariant len(entries) == len(names)
+
+var _ = fs.ValidPath
